@@ -534,6 +534,8 @@ class StdTables:
         self.strings.add(s)
         for d in (s.replace('Z', '+00:00', 1), s.replace('+00:00', 'Z', 1), s.lower()):
             self.strings.add(d)
+        if len(s) < 40:
+            self.strings.update(s)          # iterating a string where a list was expected yields its characters
 
     def add_num(self, x):
         if isinstance(x, bool):
@@ -679,5 +681,7 @@ MISS_INT = '314159265358979323846264338327950288'
 
 
 def has_miss(o):
+    if isinstance(o, dict) and o.get('stdmiss'):
+        return True
     s = json.dumps(o)
     return MISS in s or MISS_INT in s
